@@ -12,7 +12,7 @@ CONSTANTS Kind, MaxFaults, PairFrom, Sim, SimFaults
 
 VARIABLES phase, sc
 
-gvars == <<E, after, last, phase, sc>>
+gvars == <<vars, phase, sc>>
 
 Ids == DOMAIN E
 Ext(f, d) == [i \in Ids |-> IF i \in DOMAIN f THEN f[i] ELSE d]
